@@ -417,7 +417,15 @@ def rule_transp(run):
     check_formula(run, 'IAPWS97.sat :: theta2 = theta*theta', fs, 'theta2', 'theta * theta', 'theta2 is not the square of theta')
     check_formula(run, 'IAPWS97.tsat :: beta = sqrt(beta2)', ft, 'beta', 'sqrt(beta2)', 'beta is not the square root of beta2')
     check_formula(run, 'IAPWS97.tsat :: beta2 = sqrt(p / pstar4)', ft, 'beta2', 'sqrt(p / pstar4)', 'beta2 is not sqrt(p/p*)')
-    check_formula(run, 'IAPWS97.sat :: p = pstar4 * x**4', fs, 'p', 'pstar4 * x * x', 'pressure is not p* times the fourth power of the root')
+    from ..formula import assignments_to
+    if assignments_to(fs.node, 'p'):
+        check_formula(run, 'IAPWS97.sat :: p = pstar4 * x**4', fs, 'p', 'pstar4 * x * x', 'pressure is not p* times the fourth power of the root')
+    else:
+        rets = [r_ for r_ in walk_no_nested(fs.node) if isinstance(r_, ast.Return) and r_.value is not None and
+                not (isinstance(r_.value, ast.Constant) and r_.value.value is None)]
+        if len(rets) == 1:
+            check_formula(run, 'IAPWS97.sat :: p = pstar4 * x**4', fs, None, 'pstar4 * x * x', 'pressure is not p* times the fourth power of the root', node=rets[0].value)
+        else: run.unknown('IAPWS97.sat :: p = pstar4 * x**4', 'returned pressure expression not found', where=fs.where())
     check_formula(run, 'IAPWS97.sat :: x squared in place', fs, 'x', 'x * x', 'root is not squared', which=-1)
 
 
